@@ -1,33 +1,39 @@
 import BeyondVerif.Model.Memo
 /-!
-Counter-witness for the clause "the result of a conversion depends on the inputs of that call only" of C02, for a memo
-keyed like `beyond/utils/memoize.py` keys `iau1980._nutation`: by the TEXT of the date (`str(args)`), while the value
-also depends on what the Date carries without showing it (TAI−UTC of its EOP record through the TT instant of a UTC text;
-δΔψ, δΔε of its EOP record when `eop_correction=True`).
+Regression witnesses for the clause "the result of a conversion depends on the inputs of that call only" of C02.
 
-Discrete instance: an argument is (text, hidden value of the record), the key keeps the text, the function reads both.
-Replayed on the implementation by harness/props/C02.py: families `nutation-memo:*` (known finding C02-nutation-memo-eop)
-and — for the same decoration put on `_sideral` — seeded change C02-m2.
+Until deb035a `iau1980._nutation(date, eop_correction, terms)` was memoized by `beyond/utils/memoize.py` under the TEXT of the date
+(`str(args)`), while its value also depended on what the Date carries without showing it (TAI−UTC of its EOP record through the TT
+instant of a UTC text; δΔψ, δΔε of its EOP record when `eop_correction=True`): finding C02-nutation-memo-eop, now fixed — the memo sits
+on `_nutation_series(ttt, terms)`, keyed by everything the series reads.
+
+Discrete instance: an argument is (text, hidden value of the record).
+* `text_keyed_memo_*`: the OLD key (the text alone) makes the memoized function history and order dependent — what the oracle family
+  `nutation-eop-correction:after-other-configuration` and the mixed TAI−UTC histories of the correspondence (harness/props/C02.py) report
+  again if the decoration moves back onto a function of the date (checked by reverting deb035a; the same for seeded change C02-m2).
+* `full_key_memo_sound`: the NEW key (everything the value reads) answers the same history like the bare function
+  (instance of `Memo.run_eq_map`; for the model itself: `C02.nutation_series_key_sound`, `C02.session_history_independent`).
 -/
 namespace BeyondVerif.C02W
 open BeyondVerif
 
-/-- same text 7, records 32 then 0: the second call is answered with the value of the first -/
+/-- old key: same text 7, records 32 then 0: the second call is answered with the value of the first -/
 theorem text_keyed_memo_stale :
     Memo.run (fun (x : Nat × Nat) => x.1) (fun x => x.1 + x.2) [] [(7, 32), (7, 0)] = [39, 39] := by decide
 
-/-- … which is not what the bare function returns along that history: the memoized function is history dependent -/
+/-- old key: … which is not what the bare function returns along that history -/
 theorem text_keyed_memo_history_dependent :
     Memo.run (fun (x : Nat × Nat) => x.1) (fun x => x.1 + x.2) [] [(7, 32), (7, 0)]
       ≠ [(7, 32), (7, 0)].map (fun x => x.1 + x.2) := by decide
 
-/-- the order of the two calls decides what the call `(7, 0)` returns -/
+/-- old key: the order of the two calls decides what the call `(7, 0)` returns -/
 theorem text_keyed_memo_order_dependent :
     (Memo.run (fun (x : Nat × Nat) => x.1) (fun x => x.1 + x.2) [] [(7, 32), (7, 0)]).getLast? = some 39 ∧
     (Memo.run (fun (x : Nat × Nat) => x.1) (fun x => x.1 + x.2) [] [(7, 0)]).getLast? = some 7 := by decide
 
-/-- keyed by everything the value reads, the same history is answered like the bare function (instance of `Memo.run_eq_map`) -/
+/-- new key: keyed by everything the value reads, the same history (and its reverse) is answered like the bare function -/
 theorem full_key_memo_sound :
-    Memo.run (fun (x : Nat × Nat) => x) (fun x => x.1 + x.2) [] [(7, 32), (7, 0), (7, 32)] = [39, 7, 39] := by decide
+    Memo.run (fun (x : Nat × Nat) => x) (fun x => x.1 + x.2) [] [(7, 32), (7, 0), (7, 32)] = [39, 7, 39] ∧
+    Memo.run (fun (x : Nat × Nat) => x) (fun x => x.1 + x.2) [] [(7, 0), (7, 32), (7, 0)] = [7, 39, 7] := by decide
 
 end BeyondVerif.C02W
